@@ -330,9 +330,11 @@ fn mutate_file(v: &mut FileVal, t: &mut Tape, all_keys: &[String]) -> Vec<String
                 // `$t` inside plural forms / range branches, and cycles
                 if let FileVal::Map(entries) = v {
                     let target = if all_keys.is_empty() { "k0".to_string() } else { all_keys[t.pick(all_keys.len())].clone() };
-                    let base = format!("pl{}", entries.len());
-                    entries.push((format!("{base}_one"), FileVal::Str(format!("one $t({target})"))));
-                    entries.push((format!("{base}_other"), FileVal::Str(format!("{{{{ count }}}} $t({target}, {{\"count\": 2}}) $t({base})"))));
+                    // the base name may itself end like a plural suffix (`pl3_ordinal`, `pl3_other`), and the forms may be ordinal
+                    let base = format!("pl{}{}", entries.len(), ["", "", "_ordinal", "_other", "_one", "_ordinal_ordinal"][t.pick(6)]);
+                    let ord = if t.chance(1, 3) { "_ordinal" } else { "" };
+                    entries.push((format!("{base}{ord}_one"), FileVal::Str(format!("one $t({target})"))));
+                    entries.push((format!("{base}{ord}_other"), FileVal::Str(format!("{{{{ count }}}} $t({target}, {{\"count\": 2}}) $t({base})"))));
                     if t.coin() {
                         entries.push((format!("{base}_ordinal_other"), FileVal::Str("x".into())));
                     }
